@@ -17,17 +17,28 @@ func oracleC06(x *Exec, so *StepObs) {
 	if !isDryOp(op) || r.Crashed {
 		return
 	}
-	if op.Op != "install" && op.Op != "upgrade" && op.Op != "rollback" && op.Op != "uninstall" {
+	if op.Op != "install" && op.Op != "upgrade" && op.Op != "rollback" && op.Op != "uninstall" && op.Op != "cli" {
 		return
 	}
 	spelling := "DryRun"
 	if op.DryRunOption != "" {
 		spelling = "dry-run=" + op.DryRunOption
 	}
+	if op.Op == "cli" {
+		spelling = "cli"
+		for _, a := range op.CLI {
+			if strings.HasPrefix(a, "--dry-run") || a == "--validate" || a == "--is-upgrade" || a == "--install" {
+				spelling += " " + a
+			}
+		}
+	}
 	if op.ClientOnly {
 		spelling += "+client-only"
 	}
 	opName := op.Op
+	if op.Op == "cli" {
+		opName = "cli-" + op.CLIKind
+	}
 	cause := spelling + ledgerCtx(so.Before)
 	fail := func(clause, detail string) {
 		x.Violate(Violation{P, clause, opName, cause, detail, so.Index})
@@ -153,6 +164,67 @@ func genC06(seed, index uint64, tier string) *Plan {
 			}
 		default:
 			op.DryRun = true
+		}
+		if g.Chance(0.2) {
+			// the same through the command line layer (pkg/cmd): flag parsing and wiring are part of what must not write
+			cli := OpSpec{Op: "cli", Chart: op.Chart, Values: op.Values, TimeoutS: op.TimeoutS}
+			add := func(cond bool, a ...string) {
+				if cond {
+					cli.CLI = append(cli.CLI, a...)
+				}
+			}
+			switch g.Weighted(5, 3, 3, 1, 1) {
+			case 0:
+				cli.CLIKind = "template"
+				cli.CLI = []string{"template", "rel", "@CHART@", "-n", "ns1", "-f", "@VALUES@"}
+				validate := g.Chance(0.5)
+				add(validate, "--validate")
+				switch g.N(7) {
+				case 0:
+				case 1:
+					add(true, "--dry-run")
+				default:
+					add(true, "--dry-run="+g.Pick("client", "server", "true", "false", "none"))
+				}
+				add(g.Chance(0.3), "--is-upgrade")
+				add(g.Chance(0.3), "--create-namespace")
+				add(g.Chance(0.3), "--include-crds")
+				add(g.Chance(0.2), "--skip-crds")
+				add(g.Chance(0.2), "--no-hooks")
+				add(g.Chance(0.2), "--skip-tests")
+				cli.ClientOnly = !validate
+			case 1:
+				cli.CLIKind = "install"
+				cli.CLI = []string{"install", "rel", "@CHART@", "-n", "ns1", "-f", "@VALUES@", g.Pick("--dry-run", "--dry-run=client", "--dry-run=server", "--dry-run=true")}
+				add(g.Chance(0.4), "--create-namespace")
+				add(g.Chance(0.4), "--replace")
+				add(g.Chance(0.2), "--atomic")
+				add(g.Chance(0.2), "--wait")
+				add(g.Chance(0.2), "--no-hooks")
+				add(g.Chance(0.2), "--skip-crds")
+			case 2:
+				cli.CLIKind = "upgrade"
+				cli.CLI = []string{"upgrade", "rel", "@CHART@", "-n", "ns1", "-f", "@VALUES@", g.Pick("--dry-run", "--dry-run=client", "--dry-run=server", "--dry-run=true")}
+				add(g.Chance(0.5), "--install")
+				add(g.Chance(0.3), "--create-namespace")
+				add(g.Chance(0.2), "--atomic")
+				add(g.Chance(0.2), "--force")
+				add(g.Chance(0.2), "--history-max", "1")
+				add(g.Chance(0.2), "--reuse-values")
+				add(g.Chance(0.2), "--cleanup-on-fail")
+			case 3:
+				cli.CLIKind = "uninstall"
+				cli.CLI = []string{"uninstall", "rel", "-n", "ns1", "--dry-run"}
+				add(g.Chance(0.3), "--keep-history")
+				add(g.Chance(0.3), "--no-hooks")
+				add(g.Chance(0.2), "--ignore-not-found")
+			case 4:
+				cli.CLIKind = "rollback"
+				cli.CLI = []string{"rollback", "rel", fmt.Sprint(g.N(3)), "-n", "ns1", "--dry-run"}
+				add(g.Chance(0.3), "--no-hooks")
+				add(g.Chance(0.2), "--force")
+			}
+			op = cli
 		}
 		st := Step{Op: &op}
 		if g.Chance(0.15) {
